@@ -1,9 +1,14 @@
 //! fcmc — flatcontainer model checker (bounded-exhaustive exploration of the real code).
 
 mod alloc_count;
+mod catalogue;
 mod engine;
+mod m_dict;
+mod m_huff;
 mod m_index;
+mod m_life;
 mod props;
+mod spec;
 
 use engine::{Report, ViolationRec};
 use serde_json::json;
@@ -97,7 +102,10 @@ fn cmd_run(prop: &str, tier: &str, out: &str, replay_dir: &str) -> i32 {
         reports.push(run_job(j, threads));
     }
     if !small.is_empty() {
-        let queue = Mutex::new(small.iter().enumerate().collect::<Vec<_>>());
+        // long scripted runs first (popped from the end), so that the tail of the pool is short
+        let mut order: Vec<(usize, &&Job)> = small.iter().enumerate().collect();
+        order.sort_by_key(|(_, j)| matches!(j.mode, Mode::Dev(_)));
+        let queue = Mutex::new(order);
         let results: Mutex<Vec<(usize, Report)>> = Mutex::new(Vec::new());
         std::thread::scope(|s| {
             for _ in 0..threads.min(small.len()) {
